@@ -184,6 +184,22 @@ func checkC18(c *Ctx, r *Report) {
 			return true
 		})
 	}
+	// '--': everything after it is appended to the words collected so far
+	okTerm := false
+	if termClause != nil {
+		ast.Inspect(termClause, func(n ast.Node) bool {
+			as, ok := n.(*ast.AssignStmt)
+			if !ok || len(as.Lhs) != 1 || len(as.Rhs) != 1 {
+				return true
+			}
+			call, ok := as.Rhs[0].(*ast.CallExpr)
+			if ok && c.calleeName(call) == "append" && len(call.Args) >= 2 && c.objOfExpr(as.Lhs[0]) != nil && c.objOfExpr(call.Args[0]) == c.objOfExpr(as.Lhs[0]) {
+				okTerm = true
+			}
+			return true
+		})
+	}
+	r.check(okTerm, "flags", "terminator-appends", "the words after '--' are appended to the file words seen before it", "the '--' case must append the remaining arguments to the file words collected so far (rest = append(rest, args[1:]...)); assigning them drops a FILE given before '--'", c.pos(sw.Pos()))
 	r.check(okDefault, "flags", "file-words", "other words are collected as file arguments", "words that are not flags must be collected as file arguments", c.pos(sw.Pos()))
 	// usage string mentions the flags
 	if u, ok := pkgConstString(c.Cmd, "usage"); ok {
@@ -416,6 +432,12 @@ func checkC18(c *Ctx, r *Report) {
 		return true
 	})
 	r.check(okStdin && okDash, "streams", "stdin", "no file -> '-' -> os.Stdin", "without a file argument the command must read standard input ('' -> '-' in parseArgs, '-' -> os.Stdin in open)", c.pos(open.Pos()))
+	// ---- the .bcb file carries every part of the program that the output depends on
+	if fspec, err := loadFormatSpec(); err == nil {
+		ruleSectionAgreement(c, r, "bdump-bload-sections", fspec)
+	} else {
+		r.bad("bdump-bload-sections", "format.json", err.Error(), "")
+	}
 	r.note("end-to-end behaviour of the binary (argument permutations, the .bcb round trip, byte-identical output): nothing is executed")
 }
 
